@@ -2,6 +2,7 @@ mod checks;
 mod engine;
 mod framework;
 mod rng;
+mod simio;
 
 use framework::*;
 
@@ -48,12 +49,14 @@ fn main() {
                 "C02" => checks::c02::run(tier, seed, &known),
                 "C03" => checks::c03::run(tier, seed, &known),
                 "C10" => checks::c10::run(tier, seed, &known),
+                "C15" => checks::c15::run(tier, seed, &known),
                 _ => {
                     eprintln!("harness error: no check for {id}");
                     std::process::exit(2);
                 }
             };
             let code = report.finish(t0.elapsed().as_secs_f64());
+            simio::cleanup_scratch();
             std::process::exit(code);
         }
         "replay" => {
